@@ -1,5 +1,7 @@
 """C20 workload generator: start states + programs to record (IN, HALT, EI/DI, IM 1/2, DD/FD chains, LD A,I/R,
 block I/O, self-modification, 128K paging and AY writes), and recording parameters (frame lengths, frame counts)."""
+import random
+
 from vk.gens import proggen
 
 DATA = 0xB000
@@ -110,6 +112,56 @@ def blk_paging(rng):
         return [0x3E, v & 0x1F, 0xD3, 0xFD]                                # OUT (FD),A with A on the high half: decoded when A < 0x80
     return [0x01, 0xFD, 0xFF, 0x3E, rng.choice([0, 7, 8, 13, 15, 16, 200]), 0xED, 0x79, 0x06, 0xBF, 0x3E, rng.randrange(256), 0xED, 0x79]
 
+LOCKVARS = DATA + 0x7E0
+TAGADDR = 0xF000                       # offset 0x3000 of whichever bank is paged in at 0xC000: holds 0xB0 + bank number
+
+def out_7ffd(rng, v, match=True):
+    """Write v to the paging port (match: an address the 128K decodes as 0x7FFD, A15 and A1 low) or to a near miss."""
+    if match:
+        how = rng.choice(['c', 'c', 'c3', 'c5', 'n', 'e'])
+        if how == 'n' and v < 0x80:
+            return [0x3E, v, 0xD3, 0xFD]                                  # OUT (0xFD),A: port = A*256 + 0xFD
+        hi = {'c3': 0x3F, 'c5': 0x5F}.get(how, 0x7F)
+        if how == 'e':
+            return [0x01, 0xFD, hi, 0x1E, v, 0xED, 0x59]                  # LD BC,nnFD ; LD E,v ; OUT (C),E
+        return [0x01, 0xFD, hi, 0x3E, v, 0xED, 0x79]                      # LD BC,nnFD ; LD A,v ; OUT (C),A
+    if rng.random() < 0.25:
+        return [0x3E, v | 0x80, 0xD3, 0xFD]                               # A15 high: not the paging port
+    port = rng.choice([0x7FFF, 0xFFFD, 0xBFFD, 0x7FFE, 0xFFFF, 0xFFFD])
+    return [0x01, port & 0xFF, port >> 8, 0x3E, v, 0xED, 0x79]
+
+def tag_probe(rng, slot):
+    """Bank- and ROM-dependent reads, copied into fixed RAM (bank 2) and used in branches."""
+    tag = 0xB0 + rng.randrange(8)
+    return ([0x3A] + w(TAGADDR) + [0x32] + w(LOCKVARS + slot) + [0xFE, tag, 0x28, 0x04, 0x21] + w(LOCKVARS + 8) + [0x34] +      # CP tag; JR Z,+4; LD HL,n; INC (HL)
+            [0x3A, 0x01, 0x00, 0x32] + w(LOCKVARS + 4 + slot) + [0x07, 0x30, 0x01, 0x2F, 0x32] + w(LOCKVARS + 9))                # ROM byte 1; RLCA; JR NC,+1; CPL
+
+def blk_lockseq(rng):
+    """0x7FFD history: (bank select,) LOCK (bit 5 set), then further writes with bit 5 clear and set, selecting other banks /
+    the other ROM, to decoded and to undecoded addresses, each followed by bank/ROM-dependent reads. The block sits in the
+    program's main loop, so all of it is repeated in every later frame while the machine is locked."""
+    out = []
+    cur = rng.randrange(8) | (rng.randrange(2) << 4)
+    if rng.random() < 0.6:
+        out += out_7ffd(rng, cur)
+        out += tag_probe(rng, 0)
+    lock = 0x20 | rng.randrange(8) | (rng.randrange(2) << 4) | (8 if rng.random() < 0.2 else 0)
+    out += out_7ffd(rng, lock)
+    out += tag_probe(rng, 1)
+    n = 0
+    for _ in range(rng.randint(2, 4)):
+        if rng.random() < 0.3:
+            out += out_7ffd(rng, rng.choice([0x00, 0x07, 0x10, 0x20, 0x27, rng.randrange(64)]), match=False)
+        v = (lock ^ rng.choice([1, 2, 3, 4, 7, 0x10, 0x11, 0x17])) & 0x1F          # another bank and/or the other ROM
+        if n == 0 or rng.random() < 0.6:
+            v &= 0x1F                                                            # bit 5 clear
+        else:
+            v |= 0x20
+        out += out_7ffd(rng, v)
+        out += tag_probe(rng, 2 + (n & 1))
+        n += 1
+    return out
+
 def blk_ay(rng):
     reg = rng.choice([15, 15, 16, 14, 0, 7, 13, 31, 255, rng.randrange(16)])
     return [0x01, 0xFD, 0xFF, 0x3E, reg, 0xED, 0x79, 0x06, 0xBF, 0x3E, rng.randrange(1, 256), 0xED, 0x79]
@@ -139,7 +191,7 @@ def isr_im2(rng, counter):
     code += list(rng.choice([[0xC9], [0xED, 0x4D], [0xED, 0x45]]))
     return code
 
-def main_program(rng, org, is128):
+def main_program(rng, org, is128, extra=(), front=False):
     """Prologue + loop of blocks + JP loop (+ a subroutine)."""
     pro = []
     pro += [rng.choice([0xF3, 0xFB, 0x00])]
@@ -150,7 +202,7 @@ def main_program(rng, org, is128):
              [blk_loop] * 2 + [blk_delay] * 2 + [blk_ldir] * 2 + [blk_border] * 2 + [blk_im] + [blk_ldair] * 2 + [blk_ay]
     if is128:
         makers += [blk_paging] * 5 + [blk_ay] * 3
-    body = []
+    body = list(extra) if front else []
     slots = []
     sub_calls = []
     for _ in range(rng.randint(3, 14)):
@@ -167,6 +219,8 @@ def main_program(rng, org, is128):
             if rng.random() < 0.3:
                 body += [0xFB]
             body += rng.choice(makers)(rng)
+    if not front:
+        body += list(extra)
     if rng.random() < 0.8 and 0xFB not in body:
         body += [0xFB]
     end = loop_at + len(body)
@@ -177,7 +231,7 @@ def main_program(rng, org, is128):
         body[off], body[off + 1] = sub_at & 0xFF, (sub_at >> 8) & 0xFF
     return pro + body + sub
 
-def soup_program(rng, org):
+def soup_program(rng, org, extra=(), front=False):
     """Dense mix of the instructions the frame-boundary rules single out, so that short frames end on all of them."""
     items = []
     n = rng.randint(12, 60)
@@ -208,6 +262,10 @@ def soup_program(rng, org):
         else:
             items.append(blk_mem(rng) if rng.random() < 0.5 else blk_ay(rng))
     code = [b for it in items for b in it]
+    if front:
+        code = list(extra) + code
+    else:
+        code = code + list(extra)
     return code + [0xFB] * (rng.random() < 0.7) + [0xC3] + w(org)
 
 MICRO = [
@@ -241,6 +299,9 @@ def gen_case(rng, allow_real=True, ref_friendly=False):
     RF[0] = ref_friendly
     is128 = rng.random() < 0.4
     kind = rng.choices(['main', 'soup', 'micro', 'random'], [0.4, 0.3, 0.15, 0 if ref_friendly else 0.15])[0]
+    lrng = random.Random('lock/%r' % (rng.getstate()[1][:6],))      # separate stream: the main one is not consumed
+    lockseq = blk_lockseq(lrng) if is128 and kind in ('main', 'soup', 'micro') and lrng.random() < (0.5 if kind == 'micro' else 0.75) else None
+    lock_front = lrng.random() < 0.6
     img = background(rng, 65536)                      # logical 64K view under the initial paging (ROM part ignored)
     i_page = rng.choice([0xBE, 0xBE, 0xFE, 0x80, 0x5B, 0x3B, 0x00, 0x3F, rng.randrange(256)])
     if ref_friendly:
@@ -265,12 +326,16 @@ def gen_case(rng, allow_real=True, ref_friendly=False):
             # HALT as the very last byte of memory: the PC step at the frame boundary wraps to 0
             code = [0xFB, 0x76]
             org = 0xFFFE
+        if lockseq:
+            # 128K micro loop: the paging history, then EI and a port read, for ever
+            org = 0x8000
+            code = list(lockseq) + [0xFB, 0xDB, 0xFE, 0xC3] + w(org)
     elif kind == 'main':
         org = rng.choice([0x8000, 0x8000, 0x6000, 0x7FF0, 0xC000, 0xBFF8, 0x9000])
-        code = main_program(rng, org, is128)
+        code = main_program(rng, org, is128, lockseq or (), lock_front)
     elif kind == 'soup':
         org = rng.choice([0x8000, 0x8000, 0x6000, 0x7FF0, 0xC000, 0x9000])
-        code = soup_program(rng, org)
+        code = soup_program(rng, org, lockseq or (), lock_front)
     else:
         org = rng.choice([0x8000, 0x6000, 0xC000, 0x7FF0])
         code = proggen.program_bytes(rng, rng.choice([30, 100, 300]), org)
@@ -307,6 +372,11 @@ def gen_case(rng, allow_real=True, ref_friendly=False):
         for b in range(8):
             if b not in (2, 5):
                 banks[b][0x3000] = 0xB0 + b
+        if lockseq:
+            for b in range(8):
+                banks[b][0x3000] = 0xB0 + b              # tag in every bank (bank 2: the byte at 0xB000, bank 5: at 0x7000)
+            if lrng.random() < 0.15:
+                st['out7ffd'] = o7 | 0x20                # the snapshot itself holds a locked machine
         st['ram'] = [bytes(b) for b in banks]
         frame = 70908
     else:
@@ -325,7 +395,7 @@ def gen_case(rng, allow_real=True, ref_friendly=False):
         flen, nf = frame, rng.randint(2, 6)
     jitter = 0 if cls == 'real' or rng.random() < 0.5 else rng.randint(1, max(1, flen))
     st['tstates'] = rng.randrange(flen) if rng.random() < 0.7 else rng.randrange(frame)
-    meta = {'kind': kind, 'is128': is128, 'org': org, 'code_len': len(code), 'flen_class': cls, 'flen': flen, 'jitter': jitter, 'frames': nf,
+    meta = {'lockseq': bool(lockseq), 'kind': kind, 'is128': is128, 'org': org, 'code_len': len(code), 'flen_class': cls, 'flen': flen, 'jitter': jitter, 'frames': nf,
             'inputs': rng.choice(['const', 'const', 'const', 'hash', 'hash', 'counter', 'keys']), 'in_seed': rng.randrange(1 << 30)}
     return st, meta
 
